@@ -141,19 +141,42 @@ fn record_balance(path: &str, seed: u64, nscen: u64) {
                 } else {
                     (-1, 1)
                 };
+                // the upstream's ConnConfig is made by a configuration script
+                // (ClientConfig.tla: CcRun); the burst limit in force is what
+                // the script leaves.  Half a tick short: `elapsed >
+                // burst_interval` is decided on whole ticks.
+                let real_iv = (TICK * (iv as u32) - TICK / 2).as_millis() as u64;
+                let mut cc = load_balancer::ConnConfig::new();
+                let calls = if !lb {
+                    json!([])
+                } else {
+                    match rng.below(8) {
+                        // below the range: capped to 1 ms, over at the next tick
+                        0 | 1 if iv == 1 => json!([{"f": "set_burst_interval", "v": rng.below(2)},
+                                                   {"f": "set_max_burst", "v": mb}]),
+                        // set twice, the first time beyond the range
+                        2 => json!([{"f": "set_max_burst", "v": 7}, {"f": "set_burst_interval", "v": 7_200_000},
+                                    {"f": "set_max_burst", "v": mb}, {"f": "set_burst_interval", "v": real_iv}]),
+                        // the default interval (1 s): over at the next tick
+                        3 if iv == 1 => json!([{"f": "set_max_burst", "v": mb}]),
+                        // nothing set at all: no limit
+                        4 if mb < 0 && iv == 1 => json!([]),
+                        _ => json!([{"f": "set_max_burst", "v": mb}, {"f": "set_burst_interval", "v": real_iv}]),
+                    }
+                };
+                if !cc_apply(&mut cc, &json!({"calls": calls})) {
+                    panic!("configuration script");
+                }
+                let eff = cc_eff(&mut cc);
                 match &bal {
                     Bal::Lb(c) => {
-                        let mut cc = load_balancer::ConnConfig::new();
-                        cc.set_max_burst(if mb < 0 { None } else { Some(mb as u64) });
-                        // half a tick short: `elapsed > burst_interval` is decided on whole ticks
-                        cc.set_burst_interval(TICK * (iv as u32) - TICK / 2);
                         let _ = c.add(&format!("up{}", u), &cc, up).await;
                     }
                     Bal::Red(c) => {
                         let _ = c.add(up).await;
                     }
                 }
-                w.event(json!({"ev": "add", "mb": mb, "iv": iv}));
+                w.event(json!({"ev": "add", "calls": calls, "eff": eff, "mb": mb, "iv": iv}));
             }
             settle(&act).await;
             let comp: Arc<Mutex<Vec<(u64, Value)>>> = Arc::new(Mutex::new(vec![]));
